@@ -171,6 +171,7 @@ func runC11(c *Ctx) {
 		}
 		c.touch(fnKey(fn))
 		s := newSumm(p, 0)
+		s.HelperInline = bodyHelpers(fn, mover)
 		paths, _ := s.Function(fn)
 		n := 0
 		var bad []string
